@@ -82,8 +82,13 @@ def one_case(rng, tier):
         pre = ''.join(rng.choice(alpha) for _ in range(rng.randrange(1, 6))) + d
         if rng.random() < 0.3:
             pre += 'q'          # pre-existing unterminated tail
+    restarts = []
+    if rng.random() < 0.3:
+        total = 0.25 + sum(gaps)
+        t0 = round(rng.uniform(0.3, max(0.4, total)), 2)
+        restarts.append([t0, round(t0 + rng.choice([0.0, 0.5, 1.5, 3.0]), 2)])
     return {'kind': 'textfile', 'delimiter': d, 'chunks': chunks, 'gaps': gaps, 'pre': pre, 'from_end': from_end,
-            'poll': 1.0, 'as_path': d != '\r\n' and rng.random() < 0.5}
+            'poll': 1.0, 'as_path': d != '\r\n' and rng.random() < 0.5, 'restarts': restarts}
 
 
 def check_case(case, counters, sets):
@@ -133,6 +138,17 @@ def check_case(case, counters, sets):
                     if todo:
                         loop.call_later(0.25 + todo[0][1], w)
                     src.start()
+                    for t_stop, t_start in case.get('restarts', []):
+                        # the source is stopped and started again while data keeps being appended
+                        def stop_then_start(gap=max(0.0, t_start - t_stop)):
+                            src.stop()
+                            if gap:
+                                loop.call_later(gap, src.start)
+                            else:
+                                src.start()
+                        loop.call_later(t_stop, stop_then_start)
+                        t = max(t, t_start)
+                        counters['textfile_restart_runs'] = counters.get('textfile_restart_runs', 0) + 1
                     loop.drive(until_vt=t + 4 * case['poll'] + 1, max_iters=200000)
                     src.stop()
                     loop.drive(until_vt=t + 7 * case['poll'] + 1, max_iters=50000)
